@@ -803,14 +803,31 @@ func Run(plan *Plan) *Result {
 			hasAtHB = hasAtHB || r.AtHeartbeat
 		}
 	}
-	if plan.HeartbeatStallUs > 0 || hasAtHB {
-		s.gateOn = true
+	if plan.HeartbeatStallUs > 0 || hasAtHB || plan.AttachStallUs > 0 || plan.PoolWaitStallUs > 0 {
+		s.gateOn = plan.HeartbeatStallUs > 0 || hasAtHB
 		pipeline.VerifSetGate(func(point string) {
-			if point == "streamer.heartbeat.beforeUnblock" {
-				s.heartbeatGate()
+			switch point {
+			case "streamer.heartbeat.beforeUnblock":
+				if s.gateOn {
+					s.heartbeatGate()
+				}
+			case "streamer.join.beforeAttach":
+				if plan.AttachStallUs > 0 {
+					time.Sleep(time.Duration(plan.AttachStallUs) * time.Microsecond)
+				}
+			case "pool.std.beforeWait", "pool.lowmem.beforeWait":
+				if plan.PoolWaitStallUs > 0 && !plan.Virtual {
+					time.Sleep(time.Duration(plan.PoolWaitStallUs) * time.Microsecond)
+				}
 			}
 		})
 		defer pipeline.VerifSetGate(nil)
+	}
+	if !plan.Virtual {
+		// real time: shorten the pools' waiter heartbeat (default 5 s) so that a rescued lost wake-up
+		// costs 100 ms instead of 5 s of wall time; the bounded-resume clause itself is checked with the
+		// default period in virtual time and by the gated pool unit
+		p.VerifSetPoolWakeupInterval(100 * time.Millisecond)
 	}
 	s.start = time.Now()
 	fdkit.TakeLoggedPanics()
@@ -850,12 +867,24 @@ func Run(plan *Plan) *Result {
 	if plan.Virtual {
 		step = 5 * time.Millisecond
 	}
+	// progress-based: the run fails only when nothing moved (no record offered / accepted / finalized)
+	// for the whole deadline; a plain wall-clock bound would turn repeated, individually bounded
+	// waits (e.g. a 5 s pool wake-up per record with capacity 1) or machine load into false alarms
+	lastProgress := time.Now()
+	lastMark := -1
+	hardStop := 10 * deadline
 	for {
 		if int(feedersDone.Load()) == len(plan.Sources) && s.idle() {
 			s.res.Quiesced = true
 			break
 		}
-		if time.Since(s.start) > deadline {
+		s.mu.Lock()
+		mark := int(s.seq)
+		s.mu.Unlock()
+		if mark != lastMark {
+			lastMark, lastProgress = mark, time.Now()
+		}
+		if time.Since(lastProgress) > deadline || time.Since(s.start) > hardStop {
 			break
 		}
 		if msgs := fdkit.TakeLoggedPanics(); len(msgs) > 0 {
@@ -889,7 +918,7 @@ func Run(plan *Plan) *Result {
 		}
 		sort.Ints(pending)
 		feeders := int(feedersDone.Load())
-		s.failf("C04", "not-finalized", "pipeline not idle %v after start: %d of %d feeders finished, accepted events never finalized: %v (in use %d, waiters %d)", deadline, feeders, len(plan.Sources), pending, p.VerifPoolInUse(), p.VerifPoolWaiters())
+		s.failf("C04", "not-finalized", "pipeline made no progress for %v: %d of %d feeders finished, accepted events never finalized: %v (in use %d, waiters %d)", deadline, feeders, len(plan.Sources), pending, p.VerifPoolInUse(), p.VerifPoolWaiters())
 		s.failf("C02", "unaccounted-events", "accepted events neither committed nor dropped when the run ended: %v", pending)
 	} else {
 		s.res.PoolInUseAtEnd = p.VerifPoolInUse()
